@@ -316,14 +316,28 @@ P = {
        "accessor (popcnt stream).",
   ref="DESIGN.md section 5 C08"),
  "C17": dict(
-  text="14 Lean theorems about the executable model of notifier.Notifier (three maps, batch level, enabled flag, a world of "
+  text="27 Lean theorems about the executable model of notifier.Notifier (three maps, batch level, enabled flag, a world of "
        "notifiers): registered_spec and maps_consistent over all histories, notify_targets (exactly the targets registered for "
        "the name or a dot-ancestor, each once), notify_priority_order, no_textual_prefix, disabled/unregistered/reset silence, "
-       "merge_spec, batch_nesting, panic_does_not_stop_delivery. Histories over 2 notifiers x 5 targets are run against the Go "
-       "code (black-box calls received + a white-box dump through -overlay).",
-  note="freedom from data races is NOT proved (sequential model under the mutex); it is exercised by a -race stress oracle; "
-       "batch_nesting excludes Reset/SetEnabled of the same notifier inside the pair.",
-  ref="DESIGN.md section 5 C17"),
+       "merge_spec, batch_nesting; PANICS in a propagating-panic semantics (a panic leaves every frame that does not recover "
+       "it; errs.Recovery with good, nil and panicking handler): unrecovered_panic_aborts, recovery_frame_contains_panic, "
+       "panic_does_not_stop_delivery / _batch, and the refuted variant recover_at_loop_level_refuted; CONCURRENT USE on the "
+       "generic mutex machine: concurrent_registry_linearizable (every schedule; micro-steps per loop iteration), "
+       "concurrent_callbacks_sequential, notify_delivers_snapshot / batch_delivers_snapshot (a concurrent Notify invokes exactly "
+       "the targets registered at its linearization point, once, in priority order, whatever other goroutines do), "
+       "delivery_touches_no_shared_state (unlocked delivery commutes with every other step), and the counter-example "
+       "unlocked_not_linearizable. Histories over 3 notifiers (recovery handler good / itself panicking / nil) x 128 targets "
+       "(batch-capable, panicking with 7 kinds of panic value, two re-entrant ones that call any method back from inside "
+       "HandleNotification/BatchMode), priorities up to the int limits, names up to 4 KiB / 300 segments, are run against the "
+       "Go code (black-box calls received + a rename-robust white-box dump with a black-box fallback).",
+  note="memory-level race freedom of the Go code is NOT proved: the logical half (linearizability under the lock bracket, "
+       "unlocked delivery touching only its own snapshot) is proved for the model, and the code is observed by a -race stress "
+       "run whose judge is the linearizability theorem's conclusion (a DFS must find one order, respecting program order and "
+       "real time, that explains every delivered list, BatchMode broadcast and result); snapshots are immutable values in the "
+       "model (that nobody writes a snapshot's backing array after hand-out stays with -race); RLock brackets are treated as "
+       "exclusive; re-entrant targets are transcribed by the driver, not proved; batch_nesting excludes Reset/SetEnabled of the "
+       "same notifier inside the pair; check-then-act windows of nanoseconds are detected only probabilistically.",
+  ref="DESIGN.md section 5 C17, section 0"),
  "C18": dict(
   text="36 Lean theorems over any ordered ring/field, instantiated at the Int and Rat types the driver runs: Rect contains_iff, "
        "intersects_iff, intersect_spec, union_covers/union_smallest, empty_absorbs; Matrix transform_multiply/translate/scale/"
